@@ -35,28 +35,10 @@ theorem natDigits_length_u64 (n : Nat) (h : n < two64) : (natDigits n).length â‰
   unfold two64 at h
   exact natDigitsF_length_le n n 19 (Nat.le_refl _) (by omega)
 
-theorem wrapFold_eq (ds : Bytes) : âˆ€ acc : Nat,
-    ds.foldl (fun a d => (a * 10 + (d - 48)) % two64) (acc % two64) =
-    ds.foldl (fun a d => a * 10 + (d - 48)) acc % two64 := by
-  induction ds with
-  | nil => intro acc; rfl
-  | cons d ds ih =>
-    intro acc
-    simp only [List.foldl_cons]
-    have e : (acc % two64 * 10 + (d - 48)) % two64 = (acc * 10 + (d - 48)) % two64 := by
-      unfold two64; omega
-    rw [e]
-    exact ih _
-
 theorem parseU64Fast_natDigits (n : Nat) (h : n < two64) : parseU64Fast (natDigits n) = some n := by
   unfold parseU64Fast
-  rw [natDigits_all]
-  have := wrapFold_eq (natDigits n) 0
-  have hv := natDigits_val n
-  unfold decVal at hv
-  simp only [Nat.zero_mod] at this
-  simp only [if_true, this, hv]
-  rw [Nat.mod_eq_of_lt h]
+  rw [digitsVal_natDigits]
+  simp [h]
 
 theorem splitDash_digits (ds rest : Bytes) (h : ds.all isDigit = true) :
     splitDash (ds ++ 45 :: rest) = some (ds, rest) := by
